@@ -812,7 +812,7 @@ MANIFEST = {
             'argument, no gradient-cutting operation lies on the PIT cost path (MPS detach sites '
             'are exactly the reasoned table), and the PIT mask functions are non-decreasing in '
             '|p| with positive normalisation and full width at |p| = 1. Finiteness / '
-            'non-zero-ness of gradient values are not decided.',
+            'non-zero-ness of gradient values are not decided. The cost does not depend on which metric was read first (memo rule), and the cost functions over static layer attributes are evaluable on plain numbers (fixed layers under full_cost; number / tensor type domain).',
     'note': 'Known findings: ODiMO_MPS default cost is not evaluable (a_precision key, torch.dot '
             'on rank-2 costs). Monotonicity of the cost functions themselves is C16.',
     'technique': 'writer/reader key + rank agreement, taint analysis, backward-shape check, '
